@@ -1192,6 +1192,24 @@ Proof.
   split; [vm_compute; reflexivity|]. split; vm_compute; reflexivity.
 Qed.
 
+(* pow(a0-a2, -a0) as the symbol table parses it: |a0-a2|**(-a0); the Abs survives as a label *)
+Definition w_abs : sexpr :=
+  EApp "Pow" [EApp "Abs" [EApp "Add" [ESym (SA 0); EApp "Mul" [ENum "NegativeOne" "-1" (-1 # 1) (-1 # 1); ESym (SA 2)]]];
+              ESym (SA 0)].
+
+Theorem labels_in_basis_refuted_abs :
+  exists b e d l, supportedb e = true /\ over_basisb b e = true /\ std_binary b = true
+    /\ decorate b e = Some d /\ no_bad b d = true /\ to_list b None d = Some l
+    /\ map show_rlabel (relabel l) = ["pow"; "abs"; "-"; "a0"; "a2"; "a0"]
+    /\ forallb (in_basisb b) (relabel l) = false
+    /\ final_labels b false l = None.
+Proof.
+  exists core_maths, w_abs. eexists. eexists.
+  split; [vm_compute; reflexivity|]. split; [vm_compute; reflexivity|]. split; [vm_compute; reflexivity|].
+  split; [vm_compute; reflexivity|]. split; [vm_compute; reflexivity|]. split; [vm_compute; reflexivity|].
+  split; [vm_compute; reflexivity|]. split; vm_compute; reflexivity.
+Qed.
+
 Theorem to_list_wellformed_refuted :
   exists b e d l, supportedb e = true /\ exactb e = true /\ decorate b e = Some d /\ to_list b None d = Some l
     /\ map show_label l = ["Mul"; "-1"]
@@ -1209,7 +1227,7 @@ Lemma parent_is_pow_hit x p h :
   h = hitb (x, p).
 Proof.
   unfold hitb. simpl. destruct (r_is_num x).
-  - destruct p as [q|]; simpl; [|discriminate]. intros [= <-]. reflexivity.
+  - destruct p as [q|]; simpl; intros [= <-]; reflexivity.
   - intros [= <-]. reflexivity.
 Qed.
 
@@ -1249,6 +1267,23 @@ Proof.
   intro H. exists s, ps. split; [reflexivity|]. split; [exact Hp|].
   destruct rf; [exact H|]. injection H as <-. reflexivity.
 Qed.
+
+(* after the repair (a root number has "no pow parent") replacement itself never raises *)
+Lemma replace_from_total : forall l k, exists out, replace_from k l = Some out.
+Proof.
+  induction l as [|[x p] r IH]; intro k; [eexists; reflexivity|].
+  cbn [replace_from].
+  assert (Hh : exists h, (if r_is_num x then (pw <- parent_is_pow p ;; Some (negb pw)) else Some (r_is_par x)) = Some h).
+  { destruct (r_is_num x); [|eauto]. destruct p; simpl; eauto. }
+  destruct Hh as [h ->]. cbn [obind]. destruct h.
+  - destruct (IH (S k)) as [t ->]. eexists; reflexivity.
+  - destruct (IH k) as [t ->]. eexists; reflexivity.
+Qed.
+
+(* a number at the root is replaced *)
+Lemma root_number_replaced b t qv qp :
+  option_map (map show_rlabel) (final_labels b true [LNum t qv qp]) = Some ["a0"].
+Proof. reflexivity. Qed.
 
 (* without replacement every constant keeps its printed text and value, and nothing else changes either *)
 Theorem constants_kept b l0 l' :
